@@ -105,6 +105,49 @@ def template_only(g, sub_term):
     return True
 
 
+def check_flat_indices(run, A):
+    """a flat index: np.take(x, i) without an axis / x.item(i) addresses the flattened array - entry i of a stack of per-class parameters belongs to one particular class
+    (the last one for -1).  Examined in every function of the distribution modules (the component models hold the per-class parameters as stacks)."""
+    ev = A.ev
+    n = 0
+    for fn in A.prog.all_funcs():
+        if not fn.mod.name.startswith('pb_bss.distribution.'):
+            continue
+        g = A.graphs.get(fn)
+        calls = [e_ for e_ in g.events if e_.kind == 'call' and e_.term is not None and e_.term.fn is fn and call_parts(e_.term)[0] in ('numpy.take', 'method:item')]
+        if not calls:
+            continue
+        try:
+            ctx = ev.entry(fn)
+        except Exception:
+            ctx = None
+        short = fn.qual.split('::')[1]
+        for e_ in calls:
+            t_ = e_.term
+            nm_, pos_, kw_ = call_parts(t_)
+            arr_ = idx_ = None
+            if nm_ == 'numpy.take' and 'axis' not in kw_ and len(pos_) == 2:
+                arr_, idx_ = pos_
+            elif nm_ == 'method:item' and len(pos_) == 2:
+                arr_, idx_ = pos_
+            if arr_ is None or not (isinstance(const_val(idx_), int) and not isinstance(const_val(idx_), bool)):
+                continue
+            n += 1
+            bv_ = ev.eval(arr_, ctx) if ctx is not None else None
+            if bv_ is not None and not is_bot(bv_):
+                if bv_.kind is not TOP and not (bv_.kind & {'array'}):
+                    continue
+                if bv_.shape is not None and not bv_.shape.ell and len(bv_.shape.dims) <= 1:
+                    continue          # a vector: entry i of it
+                if bv_.meta is not None and isinstance(bv_.meta, tuple) and bv_.meta and bv_.meta[0] in ('shape_of', 'dims'):
+                    continue
+            run.violation('R-CLASS', f'{short}: flat index into a stacked array', fn.loc(t_.node),
+                          f'`{norm_stmt(t_.node)[:90]}` takes entry {const_val(idx_)} of the FLATTENED array (no axis): with stacked per-class / per-frequency parameters this is a value of one '
+                          f'particular class (the last class for -1), used for all of them - relabelling the classes changes the result',
+                          construct=f'R-CLASS::{fn.qual}::flat-index')
+    run.count('flat indices (np.take without axis, item) examined in the distribution modules', n)
+
+
 def check(run):
     A = run.A
     ev = A.ev
@@ -209,6 +252,7 @@ def check(run):
                 reported.add((fn.qual, L.id))
                 run.violation('R-CLASS', f'{short}: loop over class indices', fn.loc(L.node), 'a loop enumerates class indices (per-class special treatment is possible)',
                               construct=f'R-CLASS::{fn.qual}::class-loop')
+    check_flat_indices(run, A)
     run.count('subscripts with integer literals examined', n_sub)
     run.floor('subscripts with a resolved class axis', n_res, 6)
     run.floor('reductions over a resolved class axis', n_ax, 6)
